@@ -390,6 +390,12 @@ pub trait Portfolio<Q: BrokerQuote>: Quote<Q> {
     }
 
     fn get_positions(&self) -> Vec<String> {
+        #[cfg(feature = "verif")]
+        if let Some(ordered) =
+            crate::verif::order_positions(self.get_holdings().keys().cloned().collect())
+        {
+            return ordered;
+        }
         self.get_holdings().keys().cloned().collect()
     }
 
